@@ -290,6 +290,19 @@ fn graph_op(gs: &mut Vec<Graph>, m: &str, a: &[Value]) -> Value {
                 none()
             }
         }
+        // the textual forms themselves
+        "to_string" => val(json!(gs[0].to_string())),
+        "diff_text" => {
+            let k = us(&a[0]);
+            if k < gs.len() {
+                match gs[k].diff(&gs[0]) {
+                    Some(t) => val(json!(t)),
+                    None => unit(),
+                }
+            } else {
+                none()
+            }
+        }
         "eq" => {
             let k = us(&a[0]);
             if k < gs.len() {
